@@ -205,7 +205,9 @@ the decimal `d` (the `d` of `CellDoc` / `json_record_denotes_row`), and
 * `decToF64` of `d` with the sign of the text is `b` — so `-0.0`, printed `-0.0`, comes back as `-0.0` although its
   denotation `⟨0, -1⟩` carries no sign (L1 on the output side);
 * for `b` other than `±0` that is `nearestReal d = b`: the REAL is recovered from the DENOTATION alone;
-* `f64::from_str` of the text (`DecFloat.parseF64`) is `b`;
+* `f64::from_str` of the text (`DecFloat.parseF64`) is `b` — when the text's exponent digits' value is below 65 536
+  (`FloatGrammar.ExpSmall`, decidable on the text; beyond it Rust stops reading the exponent: observation N3 of DESIGN.md —
+  ryu never prints more than three exponent digits);
 * sqlgrep's own JSON reader (`JsonDoc.serdeNumber`, the one `docOfLine` executes) reads a number whose REAL is `b`: feeding
   the printed record back into a REAL JSON-path column returns the cell. -/
 theorem json_real_reads_back (o : RealOracle) (b : Nat) (hf : isFinite b = true)
@@ -214,7 +216,7 @@ theorem json_real_reads_back (o : RealOracle) (b : Nat) (hf : isFinite b = true)
       encode cs = (jsonValue o (.real b)).render ∧ NumD cs d ∧ CellDoc o (.real b) (.num d)
       ∧ JsonDoc.realOfDec (JsonDoc.lexNeg cs) d = b
       ∧ (b % 2 ^ 63 ≠ 0 → JsonDoc.nearestReal d = b)
-      ∧ DecFloat.parseF64 cs = some b
+      ∧ (FloatGrammar.ExpSmall cs → DecFloat.parseF64 cs = some b)
       ∧ ∃ n, JsonDoc.serdeNumber cs = some n ∧ (Sqlgrep.Json.num n).asF64 = some b := by
   have hmem : b ∈ allReals (.real b) := by simp [allReals]
   obtain ⟨ha, _⟩ := isJsonNumberBytes_sound (ho b hmem hf)
@@ -233,7 +235,7 @@ theorem json_record_reals_read_back (o : RealOracle) (row : List Value)
       ∃ d, numValue (chars (o.json b)) = some d ∧ NumD (chars (o.json b)) d
         ∧ JsonDoc.realOfDec (JsonDoc.lexNeg (chars (o.json b))) d = b
         ∧ (b % 2 ^ 63 ≠ 0 → JsonDoc.nearestReal d = b)
-        ∧ DecFloat.parseF64 (chars (o.json b)) = some b := by
+        ∧ (FloatGrammar.ExpSmall (chars (o.json b)) → DecFloat.parseF64 (chars (o.json b)) = some b) := by
   intro v hv b hb hf
   obtain ⟨d, hd, hD, h1, h2, h3, _⟩ := readsBack_spec o b hf (hr v hv b hb hf)
   exact ⟨d, hd, hD, h1, h2, h3⟩
